@@ -40,6 +40,9 @@ pub struct Knobs {
     pub sndbuf: usize,
     pub max_seg: usize,
     pub faults_until_ns: u64,
+    /// size of the ephemeral port range (0: the Linux default 32768..60999); a small range
+    /// makes a new socket reuse the port of one that was just closed
+    pub eph_ports: u16,
 }
 
 impl Default for Knobs {
@@ -57,6 +60,7 @@ impl Default for Knobs {
             sndbuf: 1 << 20,
             max_seg: 0,
             faults_until_ns: u64::MAX,
+            eph_ports: 0,
         }
     }
 }
@@ -296,8 +300,11 @@ impl KInner {
         }
     }
     fn alloc_port(&mut self, kind: Kind) -> u16 {
+        let mut tries = 0u32;
         loop {
-            let p = self.rng.range(32768, 60999) as u16;
+            tries += 1;
+            let small = self.knobs.eph_ports > 0 && tries <= 64;
+            let p = if small { self.rng.range(32768, 32768 + self.knobs.eph_ports as u64 - 1) as u16 } else { self.rng.range(32768, 60999) as u16 };
             let used = self.socks.values().any(|s| {
                 !s.dead && s.kind == kind && matches!(&s.local, Some(Addr::Inet(a)) if a.port() == p)
             });
